@@ -34,6 +34,12 @@ class SQLLineageApp:
         self.root_path = Path(SQLLineageConfig.DIRECTORY)
         self.metadata_provider = DummyMetaDataProvider()
 
+    def is_path_allowed(self, path) -> bool:
+        """
+        a path is allowed only if it's inside root_path once symlink, "." and ".." segments are resolved.
+        """
+        return Path(path).resolve().is_relative_to(Path(self.root_path).resolve())
+
     def route(self, path: str):
         def wrapper(handler):
             self.routes[path] = handler
@@ -74,9 +80,9 @@ class SQLLineageApp:
                     request_body = environ["wsgi.input"].read(request_body_size)
                     payload = json.loads(request_body)
                     for param in ["d", "f"]:
-                        if param in payload and not str(
-                            Path(payload[param]).absolute()
-                        ).startswith(str(Path(self.root_path).absolute())):
+                        if param in payload and not self.is_path_allowed(
+                            payload[param]
+                        ):
                             return self.handle_403(start_response)
                     data = self.routes[path_info](payload)
                     return self.handle_200_json(start_response, data)
@@ -190,6 +196,9 @@ def script(payload):
 def directory(payload):
     if payload.get("f"):
         root = Path(payload["f"]).parent
+        if not app.is_path_allowed(root):
+            # f is root_path itself, its parent directory must not be listed
+            raise PermissionError(str(root))
     elif payload.get("d"):
         root = Path(payload["d"])
     else:
